@@ -58,6 +58,10 @@ def run(tier):
                 acts.append(eval_action(words, tag={"k": "mut", "m": kind}))
         blocks.append((cfg, acts))
     c.notes.append("T2 (command mode): refusals / open cases generated: %s" % dict(kinds))
+    # T3: destinations of other integral types (64-bit signed / unsigned, unsigned int, short, unsigned short), values at the limits
+    wb = wide_blocks(g, 25 if tier == "quick" else 800)
+    blocks += wb
+    c.notes.append("T3: %d spellings of lines for 64 / 32 / 16 bit integral destinations" % sum(len(b[1]) for b in wb))
     script2 = os.path.join(c.wd, "random.ndjson")
     write_cases(script2, blocks)
     rej, tr = run_script(c, exe, script2, "T")
